@@ -2,7 +2,7 @@
    Each case: the global parameters whose value was changed, the pointer-typed parameters whose pointer differs
    between the two configurations, and for every component that was running whether it was recreated. *)
 From Coq Require Import List String ZArith Bool.
-Require Import MTX.Model.C13_Reload.
+Require Import MTX.Model.C13_Reload MTX.Model.C13_Push.
 Require Export MTXGen.C13_CoreDeps.
 Import ListNotations.
 Local Open Scope string_scope.
@@ -33,7 +33,7 @@ Definition old_conf : conf := fun _ => {| val := 0; addr := 1 |}.
 Definition new_conf (changed ptr_fresh : list string) : conf :=
   fun f => {| val := if mem f changed then 1%Z else 0%Z; addr := if mem f ptr_fresh then 2%Z else 1%Z |}.
 
-(* --- histories: the model's reload is replayed from the model's own state and compared after every step --- *)
+(* --- histories: the model's reload (the in-place statements with their own guards: reload_g over the generated core_pushes) is replayed from the model's own state and compared after every step --- *)
 
 Fixpoint lookupZ (c : string) (l : list (string * Z)) : Z :=
   match l with [] => 0%Z | (k, v) :: t => if String.eqb k c then v else lookupZ c t end.
@@ -107,7 +107,7 @@ Fixpoint replay (k : Z) (cur : conf) (s : state) (steps : list step) : bool :=
       match st with
       | Step ch pf atoms _ _ _ _ =>
           let new := bump cur ch pf k in
-          let s' := freeze (reload (atomv_of atoms) (k + 1) core_table pointer_fields cur new s) in
+          let s' := freeze (reload_g (atomv_of atoms) (k + 1) core_table core_pushes pointer_fields cur new s) in
           agree new s' st && replay (k + 1) new s' rest
       end
   end.
